@@ -1,6 +1,7 @@
 """Self-validation bank (thorough tier): the rules of a property are re-run, in-process, on scratch copies of the
 CURRENT tree with (a) each seeded breaking change that is recorded as detectable by this property applied -> some rule
-must fire; (b) each behaviour-preserving variant applied -> no rule may fire.  A bank failure means the checker, not
+must fire; (b) each behaviour-preserving variant (generated, variants.py) and each independently written
+behaviour-preserving refactoring (benign/<id>/patch.diff, with its equivalence demonstration) applied -> no rule may fire.  A bank failure means the checker, not
 the repository, is broken (ANALYSIS-ERROR).  Scratch copies live under a fresh mkdtemp outside /repo and /verif and are
 removed on exit."""
 from __future__ import annotations
@@ -48,6 +49,10 @@ def _job(args) -> Dict:
             r = subprocess.run(['git', 'apply', '--unsafe-paths', '--directory', dst, str(VERIF / 'seeded' / name / 'patch.diff')], capture_output=True, text=True, cwd='/')
             if r.returncode != 0:
                 return {'kind': kind, 'name': name, 'status': 'inapplicable'}
+        elif kind == 'benign':
+            r = subprocess.run(['git', 'apply', '--unsafe-paths', '--directory', dst, str(VERIF / 'benign' / name / 'patch.diff')], capture_output=True, text=True, cwd='/')
+            if r.returncode != 0:
+                return {'kind': kind, 'name': name, 'status': 'inapplicable'}
         else:
             from .variants import VARIANTS
             try:
@@ -71,7 +76,10 @@ def run_bank(pid: str, rules: List[str], ctx) -> Dict:
     # rule instances that already fail on the current tree are not attributed to a variant
     base_fired, base_err = _run_rules(ctx.repo, rules)
     known |= set(base_fired)
-    jobs = [('seeded', s, ctx.repo, rules, known) for s in seeded] + [('variant', v, ctx.repo, rules, known) for v in VARIANTS]
+    benign_dir = VERIF / 'benign'
+    benign = sorted(d.name for d in benign_dir.iterdir() if (d / 'patch.diff').exists()) if benign_dir.exists() else []
+    jobs = [('seeded', s, ctx.repo, rules, known) for s in seeded] + [('variant', v, ctx.repo, rules, known) for v in VARIANTS] + \
+        [('benign', b, ctx.repo, rules, known) for b in benign]
     with ProcessPoolExecutor(max_workers=min(16, max(1, len(jobs)))) as ex:
         results = list(ex.map(_job, jobs))
     bad: List[str] = []
@@ -87,10 +95,10 @@ def run_bank(pid: str, rules: List[str], ctx) -> Dict:
                 bad.append(f'seeded change {res["name"]} is no longer detected by the rules of {pid}' + (f' (errors: {res["errors"]})' if res['errors'] else ''))
         else:
             if res['fired'] or res['errors']:
-                bad.append(f'behaviour-preserving variant {res["name"]} raises an alarm: {(res["fired"] + res["errors"])[:2]}')
+                bad.append(f'behaviour-preserving {res["kind"]} {res["name"]} raises an alarm: {(res["fired"] + res["errors"])[:2]}')
             else:
                 n_silent += 1
     if bad:
         raise AnalysisError('SELFTEST', '; '.join(bad[:3]))
     return {'must_fire': n_fire, 'must_stay_silent': n_silent, 'inapplicable_on_current_tree': n_skip,
-            'seeded': seeded, 'variants': list(VARIANTS)}
+            'seeded': seeded, 'variants': list(VARIANTS), 'benign_refactorings': len(benign)}
